@@ -95,12 +95,14 @@ def ref_eval(t):
         if isinstance(a, int) and isinstance(b, int):
             if b >= 0:
                 return a * 10 ** b
-            r = a
-            for _ in range(-b):
+            r, rem = a, b
+            while rem < 0:
                 if r % 10 == 0:
                     r //= 10
+                    rem += 1
                 else:
-                    return a * math.pow(10, b)
+                    # trailing zeros of the mantissa are given up exactly, the rest is one floating-point scaling
+                    return r * math.pow(10, rem)
             return r
         return a * math.pow(10, b)
     if k == "bin":
@@ -120,6 +122,10 @@ def ref_eval(t):
             if op == "mod":
                 if b == 0:
                     raise Err("div0")
+                if not (float(a).is_integer() and float(b).is_integer()):
+                    # the remainder for non-integer operands is ill-conditioned (one ulp in an operand moves the
+                    # result by the whole modulus): outside the envelope of the comparison
+                    raise Err("mod of non-integers")
                 return a % b
             if op == "^":
                 return math.pow(a, b)
@@ -197,7 +203,7 @@ def gen(depth):
     if c < 0.3:
         return ("fn", rng.choice(UNARY_FN), gen(depth - 1))
     if c < 0.36:
-        return ("e", ("num", rng.choice([1, 2, 15, 300])), ("num", rng.choice([0, 1, 2, -1, -2])))
+        return ("e", ("num", rng.choice([1, 2, 15, 300, 10, 1200, 50, 0])), ("num", rng.choice([0, 1, 2, -1, -2, -3, -4, 3])))
     op = rng.choice([o for ops in LEVELS for o in ops])
     return ("bin", op, gen(depth - 1), gen(depth - 1))
 
